@@ -4,7 +4,8 @@ proof:          lean/MPilot/Props/C04.lean  (fuzzy_range: all 14 producers, no h
 correspondence: real `execute` of the 14 producers vs the model's `exec`, parameters deliberately outside [-1, 1]
 oracle:         min/max of the non-missing cells of every implementation result; the same when the producers are commands of plug-in classes
                 derived from the built-in fuzzy commands (directly and inside Programs); every fuzzy result again after each of its consumers has run
-                (every data command, CvtFromFuzzy, the writers; whole Programs)
+                (every data command, CvtFromFuzzy, the writers; whole Programs); CvtToFuzzy with an omitted threshold whose data-derived value coincides with
+                the given one (constant fields, a threshold at the field's minimum / maximum; masked and plain inputs): NaN at a present cell is outside the range
 """
 from .. import common, eems
 
@@ -360,6 +361,61 @@ def derived_producers(ctx):
                              p.commands[nm].result, desc)
 
 
+def coinciding_thresholds(ctx):
+    """CvtToFuzzy with a threshold left out (its value then comes from the data: the minimum / maximum of the field) that COINCIDES with the other one: constant
+    fields with no threshold or one threshold given, fields whose minimum / maximum is the given threshold (TrueThreshold = 0 on counts that start at 0), both
+    directions and the omitted direction, integer and floating fields, 1 cell to some 10^4 cells, rank 1-3, as masked arrays (with and without missing cells, the
+    visible cells constant) and as plain ndarrays (a plug-in's result: nothing hides a 0/0 there).  Whatever the command does with such a pair - refuse it or map
+    it - no present cell of a result may be outside [-1, 1], and a NaN is outside"""
+    import numpy
+    rng = eems._rng2(ctx)
+    fields = []
+    for dt in (float, int, numpy.float32):
+        for shape in ((1,), (7,), (3, 4), (2, 1, 5), (90, 120)):
+            v = rng.choice([0, 1, -3, 7, 250]) if dt is int else rng.choice([0.0, 1.0, -0.5, 2.5, -1e6, 1e-3])
+            fields.append(("constant", numpy.full(shape, v, dtype=dt), v, v))
+            lo, hi = (rng.choice([0, -2, 5]), rng.choice([9, 40])) if dt is int else (rng.choice([0.0, -1.25, 100.0]), rng.choice([100.5, 1e4]))
+            d = numpy.linspace(lo, hi, int(numpy.prod(shape))).astype(dt).reshape(shape)
+            if d.size > 1:
+                numpy.random.RandomState(rng.randrange(2 ** 31)).shuffle(d.reshape(-1))
+                fields.append(("spread", d, d.min().item(), d.max().item()))
+    for kind, d, lo, hi in fields:
+        combos = [{}, {"Direction": "LowToHigh"}, {"Direction": "HighToLow"}] if kind == "constant" else []
+        for direction in (None, "LowToHigh", "HighToLow"):
+            # the omitted false threshold is the minimum (HighToLow: the maximum), the omitted true threshold the maximum (HighToLow: the minimum): the given one equals it
+            f_default, t_default = (hi, lo) if direction == "HighToLow" else (lo, hi)
+            for p in ({"TrueThreshold": f_default}, {"FalseThreshold": t_default}, {"TrueThreshold": float(f_default)}, {"FalseThreshold": float(t_default)}):
+                combos.append(dict(p, **({"Direction": direction} if direction else {})))
+        for params in combos:
+            forms = [("masked array", numpy.ma.array(d.copy()), False), ("plain ndarray", numpy.ma.array(d.copy()), True)]
+            if d.size >= 3:
+                m = numpy.zeros(d.size, dtype=bool)
+                m[[0, d.size // 2]] = True                  # (the extremes of a spread field may be among the missing cells: whatever the visible extremes are then is fine)
+                hid = d.copy().astype(float if d.dtype.kind == "i" else d.dtype)
+                hid.reshape(-1)[m] = [hi + 5, lo - 5]       # beneath the missing cells lies something else
+                forms.append(("masked array with missing cells", numpy.ma.array(hid.astype(d.dtype), mask=m.reshape(d.shape)), False))
+            for form, arr, plain in forms:
+                case = eems.Case("CvtToFuzzy", params, [arr])
+                out = eems.run_impl(case, plain=plain)
+                ctx.case("coinciding-thresholds %s %r %s %r %s lo=%r hi=%r" % (kind, sorted(params.items()), d.dtype, d.shape, form, lo, hi), sample=None)
+                ctx.count("c04_coinciding_threshold_cases")
+                ctx.count("c04_coinciding:" + (out["status"] if out["status"] == "ok" else out["kind"] + ":" + out["cls"]))
+                if out["status"] != "ok":
+                    continue
+                r = out["result"]
+                rd, rm = numpy.ma.getdata(r), numpy.ma.getmaskarray(r)
+                with numpy.errstate(all="ignore"):
+                    bad = ~((rd >= -1) & (rd <= 1)) & ~rm
+                if bad.any():
+                    i = int(numpy.flatnonzero(bad.ravel())[0])
+                    desc = {"cmd": "CvtToFuzzy", "params": {k: repr(v) for k, v in params.items()}, "input": "%s field handed over as a %s, dtype %s, shape %r, minimum %r, maximum %r" % (kind, form, d.dtype, d.shape, lo, hi),
+                            "first_cells": repr(numpy.ma.getdata(arr).ravel()[:8].tolist()), "result_first_cells": repr(rd.ravel()[:8].tolist())}
+                    if d.size <= 64:
+                        desc.update(case.describe())
+                    ctx.fail("CvtToFuzzy(%s) on a %s field (%s, minimum %r, maximum %r; the omitted threshold, taken from the data, equals the given one): the present cell %d holding %r is mapped to %r, "
+                             "outside [-1, 1] (%d such cells)" % (", ".join("%s = %r" % kv for kv in sorted(params.items())), kind, form, lo, hi, i, numpy.ma.getdata(arr).ravel()[i].item(), rd.ravel()[i].item(), int(bad.sum())), desc)
+
+
 def run(ctx):
     ctx.check_proofs(["MPilot.Props.C04"])
     model = common.Model()
@@ -368,6 +424,7 @@ def run(ctx):
     chain_consumers = [c for c in eems.FUZZY_PRODUCERS if c in eems.FUZZY_CONSUMERS]
     eems.run_stream(ctx, model, eems.gen_chains(ctx.rng, ctx.budget(60, 2500), chain_consumers), "exec:fuzzy-chains", on_result=oracle(ctx))
     eems.run_stream(ctx, model, directed_chains(), "exec:fuzzy-chains-directed", on_result=oracle(ctx))
+    coinciding_thresholds(ctx)
     after_write(ctx, ctx.budget(20, 600))
     after_consumers(ctx)
     derived_producers(ctx)
